@@ -252,6 +252,17 @@ class CInterp(PInterp):
         return super().e_DeclRefExpr(n, env)
 
 
+    def e_BinaryOperator(self, n, env):
+        if n.opcode == '-' and all((x.dtype or x.type or '').strip().endswith('*') for x in n.inner):
+            a, b = self.eval(n.inner[0], env), self.eval(n.inner[1], env)
+            if isinstance(a, str) and isinstance(b, str) and b.endswith(a):
+                return len(b) - len(a)          # a points len(b)-len(a) characters into the text b starts at
+            if isinstance(a, str) and isinstance(b, str) and a.endswith(b):
+                return -(len(a) - len(b))
+            return Term('-', a, b)
+        return super().e_BinaryOperator(n, env)
+
+
 def _m_ctype_b_loc(it, ctx, n, args):
     box = getattr(it, '_ctbox', None)
     if box is None:
@@ -285,7 +296,7 @@ def ctype_models():
     return m
 
 
-def scan_with_arm(P, tu, kind_name, samples):
+def scan_with_arm(P, tu, kind_name, samples, whole_body=False):
     """Run the statement of tokenize()'s main loop that creates tokens of kind `kind_name` (new_token(kind, start, end))
     on each concrete input text; {text: spelling of the token the arm creates | None when the arm does not fire}."""
     from .lib_c09x import _explore_stmt
@@ -306,13 +317,15 @@ def scan_with_arm(P, tu, kind_name, samples):
     if len(arms) != 1:
         raise AnalysisBroken('tokenize: %d statements of the main loop create %s tokens' % (len(arms), kind_name))
     arm = arms[0]
+    if whole_body:
+        arm = body
     p_id = pvar[0].id
 
     def cut_new_token(it_, ctx, n_, args):
         res = Obj('Token', lazy=True, label=ctx.fresh('token'))
         ctx.emit('call', 'new_token', args, n_.line, res)
         return res
-    it = CInterp(P, tu, {'cut': {'new_token': cut_new_token}, 'models': ctype_models(), 'loop_limit': 0})
+    it = CInterp(P, tu, {'cut': {'new_token': cut_new_token}, 'models': ctype_models(), 'loop_limit': 0, 'inline_other_units': whole_body, 'rec_limit': 8})
     out = {}
     for text in samples:
         def mkenv(ctx, text=text):
@@ -320,6 +333,8 @@ def scan_with_arm(P, tu, kind_name, samples):
             for d in locals_:
                 env[d.id] = Sym(d.name or 'local', d.type)
             env[p_id] = text
+            ctx.globals['at_bol'] = 0
+            ctx.globals['has_space'] = 0
             return env
         paths = _explore_stmt(it, tu, arm, mkenv, max_paths=16)
         if len(paths) != 1:
